@@ -119,9 +119,57 @@ def drive_case(bins, case, idx):
                              "requested": requested, "args": cli_args if (single and tp == "svc" and c == "build") else [],
                              "nobase": case["nobase"], "hasdef": hasdef, "defpath": runlib.P("svc/tools/run-build"),
                              "candidates": candidates[tp], "observed": obs, "case": idx, "rc": res["rc"]})
+        recs += show_records(fx, targets, case, idx)
         return recs
     finally:
         fx.cleanup()
+
+
+def _stem(name):
+    """std::path::Path::file_stem"""
+    if name.startswith(".") and name.count(".") == 1:
+        return name
+    return name.rsplit(".", 1)[0] if "." in name else name
+
+
+def _listing(fx, reldir):
+    d = os.path.join(fx.repo, reldir)
+    out = []
+    if os.path.isdir(d):
+        for fn in sorted(os.listdir(d)):
+            if os.path.isfile(os.path.join(d, fn)):
+                out.append({"path": runlib.P(reldir + "/" + fn), "stem": _stem(fn)})
+    return out
+
+
+def show_records(fx, targets, case, idx):
+    """`target show --commands --argmaps` of the same repository: one record per (target, kind), judged against
+    Plan.tla's ShownNames / ShownPathOK (beyond the listed properties: a drift note, never a violation)."""
+    res = fx.monorail(["target", "show", "--commands", "--argmaps"])
+    if res["rc"] != 0 or not isinstance(res["out"], dict):
+        return [{"ev": "show", "kind": "error", "target": [], "defs": [], "candidates": [], "shown": [{"name": "?", "path": [], "perm": "?"}],
+                 "perms": [], "case": idx}]
+    recs = []
+    by_path = {t["path"]: t for t in res["out"].get("targets", [])}
+    for t in targets:
+        tp = t["path"]
+        for kind, default_dir in (("commands", tp + "/monorail/cmd"), ("argmaps", tp + "/monorail/argmap")):
+            sect = t.get(kind) or {}
+            reldir = sect.get("path") or default_dir
+            defs = [{"name": n, "path": runlib.P(d["path"]) if d.get("path") else []}
+                    for n, d in (sect.get("definitions") or {}).items()]
+            cands = _listing(fx, reldir)
+            shown, perms = [], {}
+            for n, v in ((by_path.get(tp) or {}).get(kind) or {}).items():
+                shown.append({"name": n, "path": runlib.P(v["path"]) if v.get("path") else [], "perm": v.get("permissions") or ""})
+            for pth in [c["path"] for c in cands] + [d["path"] for d in defs if d["path"]]:
+                try:
+                    perms["/".join(pth)] = "%o" % (os.stat(os.path.join(fx.repo, *pth)).st_mode & 0o777)
+                except OSError:
+                    pass
+            recs.append({"ev": "show", "kind": kind, "target": runlib.P(tp), "defs": defs, "candidates": cands, "shown": shown,
+                         "perms": [{"path": runlib.P(k), "perm": v} for k, v in perms.items()], "case": idx})
+    return recs
 
 
 def covering_sample(cases, n, rng):
@@ -169,10 +217,18 @@ def run(pid, tier):
         out = list(ex.map(lambda ic: drive_case(bins, ic[1], ic[0]), enumerate(chosen)))
     records = [r for rs in out for r in rs]
     fails, st, tr = vlib.judge("RunJudge", records, shards=min(8, max(1, len(records) // 40)))
+    drift = [(rec, whys) for rec, whys in fails if rec.get("ev") == "show"]
+    fails = [(rec, whys) for rec, whys in fails if rec.get("ev") != "show"]
+    chk.cov["show_listings_judged"] = sum(1 for r in records if r.get("ev") == "show")
+    if drift:
+        chk.notes.append({"MODEL-DRIFT": "%d `target show --commands/--argmaps` listings differ from Plan.tla's ShownNames/ShownPathOK "
+                          "(outside the listed properties)" % len(drift), "first": drift[0][0], "why": drift[0][1]})
+        print("NOTE: MODEL-DRIFT target show listing: %s" % (drift[0][1],))
+    records = [r for r in records if r.get("ev") != "show"]
     chk.cov["states"] += st
     chk.cov["transitions"] += tr
     chk.cov["evaluations"] = len(chosen)
-    chk.cov["traces_validated_against_impl"] = len(records)
+    chk.cov["traces_validated_against_impl"] = sum(1 for r in records if r.get("ev") != "show")
     chk.cov["enumerated_cases"] = len(cases)
     chk.cov["factor_value_pairs_covered"] = npairs
     chk.cov["distinct_nontrivial"] = len({json.dumps([r["base"], r["named"], r["requested"], r["args"], r["nobase"]]) for r in records
